@@ -8,7 +8,12 @@
 // point operation uses are specified at the interface; sliceContainers and
 // bTreeContainers are verified against the same map semantics under C02
 // (verif_contracts_containers.go), so these interface contracts are the statement
-// of what was proved there, assumed at the call site.
+// of what was proved there, assumed at the call site.  Their footprints name what a
+// client can observe: the map, the collection's own structs and its []*Container
+// slices.  (The []uint64 key slices of sliceContainers are also written; they are
+// private to the collection, and no function verified against these contracts reads
+// them, so they are left out rather than giving up every []uint64 row, which would
+// include the words of all bitmap containers.)
 //
 // Point reads and writes of a Bitmap are then verified against the set
 //     bmem(b, x)  <==>  mem(b.Containers.$m[x / 65536], x % 65536)
@@ -25,24 +30,25 @@ package roaring
 //@   modifies nothing
 //@ contract (Containers).GetOrCreate trusted props C01,C02
 //@   requires self != nil
-//@   modifies self.$m, sliceContainers.*, bTreeContainers.*, tree.*, elemtype uint64, elemtype *Container
+//@   modifies self.$m, sliceContainers.*, bTreeContainers.*, tree.*, elemtype *Container
 //@   ensures result != nil && self.$m[key] == result
 //@   ensures old(self.$m[key]) != nil ==> result == old(self.$m[key])
-//@   ensures old(self.$m[key]) == nil ==> fresh(result) && result.typeID == 1 && result.n == 0 && result.flags == 0 && len(result.$arr) == 0 && fresh(result.$arr) && result.$runs.ref == 0 && result.$bm.ref == 0
+//@   ensures old(self.$m[key]) == nil ==> fresh(result) && result.typeID == 1 && result.n == 0 && result.flags == 0 && len(result.$arr) == 0 && fresh(result.$arr) && result.$runs.ref == 0 && len(result.$runs) == 0 && result.$bm.ref == 0
 //@   ensures forall k :: k != key ==> self.$m[k] == old(self.$m[k])
 //@ contract (Containers).Put trusted props C01,C02
 //@   requires self != nil
-//@   modifies self.$m, sliceContainers.*, bTreeContainers.*, tree.*, elemtype uint64, elemtype *Container
+//@   modifies self.$m, sliceContainers.*, bTreeContainers.*, tree.*, elemtype *Container
 //@   ensures self.$m[key] == c
 //@   ensures forall k :: k != key ==> self.$m[k] == old(self.$m[k])
 
 //@ spec cm(b *Bitmap, k int) = b.Containers.$m[k]
-//@ spec bmem(b *Bitmap, x int) = mem(cm(b, x / 65536), x % 65536)
+//@ spec bmem(b *Bitmap, x int) = u16(x % 65536) && mem(cm(b, x / 65536), x % 65536)
 // every container of the bitmap is well formed for mutation, allocated, and no two
 // containers share storage (storage is only ever shared between bitmaps, through
 // frozen containers, which are never written)
-//@ spec bmWF(b *Bitmap) = b != nil && b.Containers != nil && (forall k :: cm(b, k) != nil ==> wfMut(cm(b, k)) && allocated(cm(b, k)))
-//@ spec bmSep(b *Bitmap) = forall k1, k2 :: k1 != k2 && cm(b, k1) != nil && cm(b, k2) != nil ==> cm(b, k1) != cm(b, k2) && (cm(b, k1).$arr.ref == 0 || cm(b, k1).$arr.ref != cm(b, k2).$arr.ref) && (cm(b, k1).$runs.ref == 0 || cm(b, k1).$runs.ref != cm(b, k2).$runs.ref) && (cm(b, k1).$bm.ref == 0 || cm(b, k1).$bm.ref != cm(b, k2).$bm.ref)
+//@ spec bmWF(b *Bitmap) = b != nil && b.Containers != nil && (forall k :: cm(b, k) != nil ==> wfMut(cm(b, k)) && cm(b, k).n >= 1 && allocated(cm(b, k)) && allocated(cm(b, k).$arr) && allocated(cm(b, k).$runs) && allocated(cm(b, k).$bm))
+//@ spec sepC(c *Container, d *Container) = c != d && (c.$arr.ref == 0 || c.$arr.ref != d.$arr.ref) && (c.$runs.ref == 0 || c.$runs.ref != d.$runs.ref) && (c.$bm.ref == 0 || c.$bm.ref != d.$bm.ref)
+//@ spec bmSep(b *Bitmap) = forall k1, k2 :: k1 != k2 && cm(b, k1) != nil && cm(b, k2) != nil ==> sepC(cm(b, k1), cm(b, k2))
 
 // coupled(b): the abstract set $set used by the contracts of package pilosa is the set
 // the containers hold.  The trusted mutators of verif_contracts_abstract.go are
@@ -54,3 +60,43 @@ package roaring
 //@   ensures result <==> bmem(b, v)
 //@   ensures coupled(b) ==> (result <==> b.$set[v])
 //@   modifies nothing
+
+// u64(x) marks a quantified bitmap value (and is the instantiation trigger).
+//@ rec u64(x int) bool = 0 <= x && x <= 18446744073709551615
+
+// DirectAdd / remove: exactly v changes, the result says whether it did, the
+// bitmap stays well formed and its containers stay separated.  roomOK of the target
+// container is the cardinality side condition explained in verif_contracts_mutate.go.
+//@ contract (*Bitmap).DirectAdd props C01,C02
+//@   requires bmWF(b) && bmSep(b)
+//@   requires cm(b, v / 65536) != nil ==> roomOK(cm(b, v / 65536))
+//@   ensures forall k :: k != v / 65536 ==> cm(b, k) == old(cm(b, k))
+//@   ensures forall k :: k != v / 65536 && cm(b, k) != nil ==> cm(b, k).typeID == old(cm(b, k).typeID) && cm(b, k).n == old(cm(b, k).n) && cm(b, k).$arr == old(cm(b, k).$arr) && cm(b, k).$runs == old(cm(b, k).$runs) && cm(b, k).$bm == old(cm(b, k).$bm)
+//@   ensures forall k :: k != v / 65536 && cm(b, k) != nil ==> unchanged(cm(b, k).$arr) && unchanged(cm(b, k).$runs) && unchanged(cm(b, k).$bm)
+//@   ensures bmWF(b)
+//@   ensures forall k :: k != v / 65536 && cm(b, k) != nil ==> cm(b, v / 65536) != cm(b, k)
+//@   ensures forall k :: k != v / 65536 && cm(b, k) != nil ==> (cm(b, v / 65536).$arr.ref == 0 || cm(b, v / 65536).$arr.ref != cm(b, k).$arr.ref)
+//@   ensures forall k :: k != v / 65536 && cm(b, k) != nil ==> (cm(b, v / 65536).$runs.ref == 0 || cm(b, v / 65536).$runs.ref != cm(b, k).$runs.ref) && (cm(b, v / 65536).$bm.ref == 0 || cm(b, v / 65536).$bm.ref != cm(b, k).$bm.ref)
+//@   ensures forall k :: k != v / 65536 && cm(b, k) != nil ==> sepC(cm(b, v / 65536), cm(b, k)) && sepC(cm(b, k), cm(b, v / 65536))
+//@   ensures bmSep(b)
+//@   ensures result <==> !old(bmem(b, v))
+//@   ensures bmem(b, v)
+//@   ensures forall x :: u64(x) && x != v ==> (bmem(b, x) <==> old(bmem(b, x)))
+
+// singleOK(c): "n == 1 means a singleton" for the representations that rely on it
+// when the last value is removed (see Container.remove).
+//@ spec singleOK(c *Container) = (isBm(c) && c.n == 1 ==> (forall x, y :: 0 <= x && x < 65536 && 0 <= y && y < 65536 && memBm(c.$bm, x) && memBm(c.$bm, y) ==> x == y)) && (isRun(c) && c.n == 1 ==> len(c.$runs) == 1 && c.$runs[0].start == c.$runs[0].last)
+//@ contract (*Bitmap).remove props C01,C02
+//@   requires bmWF(b) && bmSep(b)
+//@   requires cm(b, v / 65536) != nil ==> roomOK(cm(b, v / 65536)) && singleOK(cm(b, v / 65536))
+//@   ensures forall k :: k != v / 65536 ==> cm(b, k) == old(cm(b, k))
+//@   ensures forall k :: k != v / 65536 && cm(b, k) != nil ==> cm(b, k).typeID == old(cm(b, k).typeID) && cm(b, k).n == old(cm(b, k).n) && cm(b, k).$arr == old(cm(b, k).$arr) && cm(b, k).$runs == old(cm(b, k).$runs) && cm(b, k).$bm == old(cm(b, k).$bm)
+//@   ensures forall k :: k != v / 65536 && cm(b, k) != nil ==> unchanged(cm(b, k).$arr) && unchanged(cm(b, k).$runs) && unchanged(cm(b, k).$bm)
+//@   ensures cm(b, v / 65536) != nil ==> wfMut(cm(b, v / 65536)) && cm(b, v / 65536).n >= 1
+//@   ensures forall k :: k != v / 65536 && cm(b, k) != nil ==> wfMut(cm(b, k)) && cm(b, k).n >= 1
+//@   ensures bmWF(b)
+//@   ensures forall k :: k != v / 65536 && cm(b, k) != nil && cm(b, v / 65536) != nil ==> sepC(cm(b, v / 65536), cm(b, k)) && sepC(cm(b, k), cm(b, v / 65536))
+//@   ensures bmSep(b)
+//@   ensures result <==> old(bmem(b, v))
+//@   ensures !bmem(b, v)
+//@   ensures forall x :: u64(x) && x != v ==> (bmem(b, x) <==> old(bmem(b, x)))
